@@ -267,9 +267,10 @@ fn create_semantic_token(
     token_modifier: u32,
 ) -> SemanticToken {
     let Position { line, character } = as_position(token.range.start, text);
-    let length = token
-        .range
-        .len()
+    // like positions, the length is counted in UTF-16 code units
+    let length = text[token.range.clone()]
+        .encode_utf16()
+        .count()
         .try_into()
         .expect("Cannot convert range length to u32");
     let delta_line = line - previous_token_pos.line;
